@@ -18,7 +18,7 @@ Local Open Scope N_scope.
 (* for every list: a position reported by find holds exactly the name looked for (so excluding foo1
    can never remove foo10, foo01 or foo1-ib), and the widths find rewrites change no name *)
 Theorem C02_find_sound : forall l name l' k,
-  Forall hr_ok l -> (Z.of_nat (length (expand l)) <= 2147483647)%Z -> find l name = (l', k) ->
+  Forall hr_ok l -> (Z.of_nat (length (expand l)) <= 2147483647)%Z -> HLEdit.find l name = (l', k) ->
   expand l' = expand l /\ ((0 <= k)%Z -> nth_error (expand l) (Z.to_nat k) = Some name).
 Proof. exact find_sound_nth. Qed.
 Print Assumptions C02_find_sound.
@@ -26,14 +26,14 @@ Print Assumptions C02_find_sound.
 (* on D02 a name that is in the list is found, at its first occurrence *)
 Theorem C02_find_complete : forall l name l' ret,
   Forall hr_ok l -> Forall D02r l -> (Z.of_nat (length (expand l)) <= 2147483647)%Z ->
-  find l name = (l', ret) -> In name (expand l) ->
+  HLEdit.find l name = (l', ret) -> In name (expand l) ->
   exists k, ret = Z.of_nat k /\ nth_error (expand l) k = Some name /\ ~ In name (firstn k (expand l)).
 Proof. exact find_complete. Qed.
 Print Assumptions C02_find_complete.
 
 (* outside D02 a name that is in the list is not found (MAX_HOST_SUFFIX asymmetry) *)
 Theorem C02_find_outside_D02_refuted :
-  exists l name, Forall hr_ok l /\ In name (expand l) /\ snd (find l name) = (-1)%Z.
+  exists l name, Forall hr_ok l /\ In name (expand l) /\ snd (HLEdit.find l name) = (-1)%Z.
 Proof.
   exists [mkhr [102] 33554433 33554434 8 false], [102;51;51;53;53;52;52;51;51].
   split; [repeat constructor; cbn; lia|]. split; [left; reflexivity|vm_compute; reflexivity].
@@ -67,7 +67,7 @@ Print Assumptions C02_exclusion.
 (* the order of the words does not matter, as long as the target-producing words keep theirs *)
 Theorem C02_order_independent : forall compiles matches files items items',
   Permutation (words items) (words items') ->
-  filter (is_target files) (words items) = filter (is_target files) (words items') ->
+  filter is_target (words items) = filter is_target (words items') ->
   run_domain compiles files items ->
   run compiles matches fixed files items = run compiles matches fixed files items'.
 Proof. exact order_independent. Qed.
@@ -193,18 +193,19 @@ Qed.
 Example C02_find_nonvacuous :
   let l := [mkhr [102;49] 2 3 1 false; mkhr [102] 1 20 2 false; mkhr [102;111;111;49;45;105;98] 0 0 0 true] in
   Forall hr_ok l /\ Forall D02r l /\
-  snd (find l [102;49;50]) = 0%Z /\ snd (find l [102;49;48]) = 11%Z /\ snd (find l [102;49]) = (-1)%Z /\
-  snd (find l [102;48;49]) = 2%Z /\ snd (find l [102;111;111;49]) = (-1)%Z.
+  snd (HLEdit.find l [102;49;50]) = 0%Z /\ snd (HLEdit.find l [102;49;48]) = 11%Z /\ snd (HLEdit.find l [102;49]) = (-1)%Z /\
+  snd (HLEdit.find l [102;48;49]) = 2%Z /\ snd (HLEdit.find l [102;111;111;49]) = (-1)%Z.
 Proof.
   cbv zeta. split; [repeat constructor; cbn; lia|]. split.
-  - repeat constructor; apply d02b_sound; try (cbn; lia); vm_compute; reflexivity.
+  - apply Forall_forall. intros r Hr.
+    destruct Hr as [<-|[<-|[<-|[]]]]; (apply d02b_sound; [cbn; lia|vm_compute; reflexivity]).
   - repeat split; vm_compute; reflexivity.
 Qed.
 
 Example C02_order_nonvacuous :
   let i1 := [IW (b_foo ++ [91;49;45;51;93]); IX (b_foo ++ [50]); IW [47;51;47]] in
   let i2 := [IW [47;51;47]; IX (b_foo ++ [50]); IW (b_foo ++ [91;49;45;51;93])] in
-  Permutation (words i1) (words i2) /\ filter (is_target []) (words i1) = filter (is_target []) (words i2) /\
+  Permutation (words i1) (words i2) /\ filter is_target (words i1) = filter is_target (words i2) /\
   run_domain all_compile [] i1.
 Proof.
   cbv zeta. split; [vm_compute; apply Permutation_rev|]. split; [vm_compute; reflexivity|].
